@@ -531,3 +531,319 @@ func genUnary(r *hx.RNG, l hx.Limits, op string) *opCase {
 	k.attrs(r)
 	return k
 }
+
+// ------------------------------------------------------------------- FMA
+
+// genFMA builds x, y, u for a fused multiply-add.
+func genFMA(r *hx.RNG, l hx.Limits) *opCase {
+	k := &opCase{op: "FMA", mode: r.Mode()}
+	n1, n2 := r.Len(l), r.Len(l)
+	if n1 > 3000 {
+		n1 = 3000
+	}
+	if n2 > 3000 {
+		n2 = 3000
+	}
+	x := r.Finite(n1, int64(r.Range(-40, 40)))
+	y := r.Finite(n2, int64(r.Range(-40, 40)))
+	prod := new(big.Int).Mul(x.Coef, y.Coef)
+	pe := x.Exp + y.Exp
+	dp := int(oracle.Digits(prod))
+	ple := int64(dp) + pe // lead exponent of the product
+	pneg := x.Neg != y.Neg
+	k.p = pickPrec(r, dp, l, false)
+	p := int(minI64(k.p, 5000))
+	shape := r.Intn(100)
+	switch {
+	case shape < 30: // u within +-(p+3) digits of the product's leading digit
+		n3 := r.Len(l)
+		off := int64(r.Range(-(p + 3), p+3))
+		k.u = r.Finite(n3, ple+off)
+		k.class = "u-near"
+	case shape < 42: // u far below / far above: only a sticky contribution
+		n3 := r.Range(1, 60)
+		gap := int64(r.Range(p+2, p+2+minInt(l.MaxGap, 3000)))
+		if r.Bool() {
+			k.u = r.Finite(n3, ple-gap-int64(dp))
+			k.class = "u-far-below"
+		} else {
+			k.u = r.Finite(n3, ple+gap+int64(n3))
+			k.class = "u-far-above"
+		}
+	case shape < 70: // u = -(x*y rounded to kk digits): cancellation leaving 0 .. all digits
+		kk := r.Range(1, dp)
+		if r.Chance(25) {
+			kk = dp // exact cancellation: zero sum
+		}
+		uc, ue, _ := oracle.ExDec{Coef: prod, Exp: pe}.Trunc(int64(kk))
+		if r.Chance(30) && kk < dp {
+			uc = new(big.Int).Add(uc, big.NewInt(1))
+		}
+		k.u = oracle.Val{Form: oracle.Finite, Neg: !pneg, Coef: uc, Exp: ue}.Strip()
+		k.class = "cancel"
+		if kk == dp {
+			k.class = "cancel-to-zero"
+		}
+	case shape < 80: // the sum lands on a rounding-aimed digit string: u = T - x*y
+		if p > 300 {
+			p = 300
+			k.p = 300
+		}
+		T := hx.CoefOf(r.RoundAimed(p))
+		dT := oracle.Digits(T)
+		// align T with the product: T x 10^tE, tE chosen so that T's lead exponent is ple + small
+		tE := ple + int64(r.Range(0, 2)) - dT
+		e := tE
+		if pe < e {
+			e = pe
+		}
+		a := new(big.Int).Mul(T, oracle.Pow10(tE-e))
+		b := new(big.Int).Mul(prod, oracle.Pow10(pe-e))
+		// result sign s: s*T = pneg*prod + u  =>  u = s*T - pneg*prod
+		if r.Bool() {
+			a.Neg(a)
+		}
+		if pneg {
+			b.Neg(b)
+		}
+		a.Sub(a, b)
+		if a.Sign() == 0 {
+			k.u = oracle.Val{Form: oracle.Zero}
+		} else {
+			k.u = oracle.Val{Form: oracle.Finite, Neg: a.Sign() < 0, Coef: a.Abs(a), Exp: e}.Strip()
+		}
+		k.class = "sum-aimed"
+	case shape < 86: // zero product or zero u
+		switch r.Intn(3) {
+		case 0:
+			x = oracle.Val{Form: oracle.Zero, Neg: r.Bool()}
+			k.u = oracle.Val{Form: oracle.Zero, Neg: r.Bool()}
+		case 1:
+			y = oracle.Val{Form: oracle.Zero, Neg: r.Bool()}
+			k.u = r.Finite(r.Len(l), int64(r.Range(-40, 40)))
+		default:
+			k.u = oracle.Val{Form: oracle.Zero, Neg: r.Bool()}
+		}
+		k.class = "zeros"
+	case shape < 92: // infinities
+		inf := func() oracle.Val { return oracle.Val{Form: oracle.Inf, Neg: r.Bool()} }
+		switch r.Intn(4) {
+		case 0:
+			x = inf()
+			k.u = r.Finite(5, 0)
+		case 1:
+			k.u = inf()
+		case 2:
+			y = inf()
+			k.u = inf()
+		default:
+			x = inf()
+			y = oracle.Val{Form: oracle.Zero, Neg: r.Bool()}
+			k.u = r.Finite(5, 0)
+		}
+		k.class = "infinities"
+	default: // products at the ends of the exponent range
+		n1, n2 = r.Range(1, 40), r.Range(1, 40)
+		var target int64
+		if r.Bool() {
+			target = oracle.MaxExp + int64(r.Range(-3, 3))
+		} else {
+			target = oracle.MinExp + int64(r.Range(-3, 3))
+		}
+		le1 := int64(r.Range(-1000000000, 1000000000))
+		x = r.Finite(n1, le1)
+		y = r.Finite(n2, clampLE(target-le1, 0))
+		ule := clampLE(target+int64(r.Range(-3, 3)), 0)
+		k.u = r.Finite(r.Range(1, 40), ule)
+		k.p = int64(r.Range(1, 60))
+		k.class = "range-end"
+	}
+	k.x, k.y = x, y
+	k.attrs(r)
+	return k
+}
+
+func minInt(a, b int) int {
+	if a < b {
+		return a
+	}
+	return b
+}
+
+// fmaProductOutOfRange is the predicate of known finding D15: the exact product
+// x*y leaves the exponent range although it is only an intermediate value.
+func fmaProductOutOfRange(k *opCase) bool {
+	if k.op != "FMA" || k.x.Form != oracle.Finite || k.y.Form != oracle.Finite {
+		return false
+	}
+	le := oracle.Digits(new(big.Int).Mul(k.x.Coef, k.y.Coef)) + k.x.Exp + k.y.Exp
+	return le < oracle.MinExp || le > oracle.MaxExp
+}
+
+// ------------------------------------------------- aliasing shapes (C03, C10)
+
+// partitions4 lists the 15 set partitions of {z, x, y, u} as group ids per role.
+var partitions4 = [][4]int{
+	{0, 1, 2, 3},
+	{0, 0, 1, 2}, {0, 1, 0, 2}, {0, 1, 2, 0}, {0, 1, 1, 2}, {0, 1, 2, 1}, {0, 1, 2, 2},
+	{0, 0, 1, 1}, {0, 1, 0, 1}, {0, 1, 1, 0},
+	{0, 0, 0, 1}, {0, 0, 1, 0}, {0, 1, 0, 0}, {0, 1, 1, 1},
+	{0, 0, 0, 0},
+}
+
+// partitions3 lists the 5 set partitions of {z, x, y}.
+var partitions3 = [][4]int{{0, 1, 2, 3}, {0, 0, 1, 3}, {0, 1, 0, 3}, {0, 1, 1, 3}, {0, 0, 0, 3}}
+
+// partitions2 lists the 2 set partitions of {z, x}.
+var partitions2 = [][4]int{{0, 1, 2, 3}, {0, 0, 2, 3}}
+
+func shapeName(part [4]int, arity int) string {
+	names := []string{"z", "x", "y", "u"}
+	s := ""
+	for g := 0; g < 4; g++ {
+		var grp []string
+		for role := 0; role <= arity; role++ {
+			if part[role] == g {
+				grp = append(grp, names[role])
+			}
+		}
+		if len(grp) > 1 {
+			if s != "" {
+				s += ","
+			}
+			for i, n := range grp {
+				if i > 0 {
+					s += "="
+				}
+				s += n
+			}
+		}
+	}
+	if s == "" {
+		return "distinct"
+	}
+	return s
+}
+
+// applyShape makes the operand values consistent with a sharing pattern: roles in
+// one group get the value of the group's first operand role, and the receiver's
+// precision is raised so that operands sharing the receiver fit in it.
+func (k *opCase) applyShape(part [4]int) {
+	vals := [4]*oracle.Val{nil, &k.x, &k.y, &k.u}
+	ar := k.arity()
+	for role := 1; role <= ar; role++ {
+		for prev := 1; prev < role; prev++ {
+			if part[prev] == part[role] {
+				*vals[role] = *vals[prev]
+				break
+			}
+		}
+		if part[role] == part[0] {
+			if d := int64(digitsOf(*vals[role])); d > k.p {
+				k.p = d
+			}
+		}
+	}
+}
+
+// execShape runs the operation with variables shared as part says. prep, if
+// non-nil, prepares a receiver that is not shared with an operand (dirty receivers).
+// It returns the receiver's state and, for each operand role not sharing the
+// receiver, the operand's state before and after the call.
+func (k *opCase) execShape(part [4]int, prep func() *decimal.Decimal) (got hx.State, pi *hx.PanicInfo, before, after [4]*hx.State) {
+	vals := [4]oracle.Val{{}, k.x, k.y, k.u}
+	xp := [4]uint{0, k.xp, k.yp, k.up}
+	xm := [4]int{0, k.xm, k.ym, k.um}
+	ar := k.arity()
+	vars := map[int]*decimal.Decimal{}
+	for role := 1; role <= ar; role++ {
+		g := part[role]
+		if vars[g] != nil {
+			continue
+		}
+		if g == part[0] {
+			d := hx.Mk(vals[role], uint(k.p), k.mode)
+			if int64(d.Prec()) != k.p {
+				panic(hx.MkError{Msg: "operand sharing the receiver does not fit the receiver's precision"})
+			}
+			vars[g] = d
+		} else {
+			vars[g] = hx.Mk(vals[role], digitsOf(vals[role])+xp[role], xm[role])
+		}
+	}
+	z := vars[part[0]]
+	if z == nil {
+		if prep != nil {
+			z = prep()
+		} else {
+			z = new(decimal.Decimal).SetPrec(uint(k.p)).SetMode(decimal.RoundingMode(k.mode))
+		}
+	}
+	for role := 1; role <= ar; role++ {
+		if part[role] != part[0] {
+			s := hx.Snapshot(vars[part[role]])
+			before[role] = &s
+		}
+	}
+	X, Y, U := vars[part[1]], vars[part[2]], vars[part[3]]
+	pi = hx.Try(func() {
+		switch k.op {
+		case "Add":
+			z.Add(X, Y)
+		case "Sub":
+			z.Sub(X, Y)
+		case "Mul":
+			z.Mul(X, Y)
+		case "Quo":
+			z.Quo(X, Y)
+		case "FMA":
+			z.FMA(X, Y, U)
+		case "Sqrt":
+			z.Sqrt(X)
+		case "Set":
+			z.Set(X)
+		case "Neg":
+			z.Neg(X)
+		case "Abs":
+			z.Abs(X)
+		default:
+			panic("arith: execShape: unknown op " + k.op)
+		}
+	})
+	for role := 1; role <= ar; role++ {
+		if part[role] != part[0] {
+			s := hx.Snapshot(vars[part[role]])
+			after[role] = &s
+		}
+	}
+	return hx.Snapshot(z), pi, before, after
+}
+
+// costly reports whether executing the case would make the library materialise
+// an exponent gap beyond the tier's cap (a resource cliff, not a property
+// violation): such cases are skipped and counted, never judged.
+func (k *opCase) costly(l hx.Limits) bool {
+	gap := func(a, b oracle.Val) bool {
+		if a.Form != oracle.Finite || b.Form != oracle.Finite {
+			return false
+		}
+		d := a.Exp - b.Exp
+		if d < 0 {
+			d = -d
+		}
+		return d > int64(l.MaxGap)+20000
+	}
+	switch k.op {
+	case "Add", "Sub":
+		return gap(k.x, k.y)
+	case "FMA":
+		if k.x.Form == oracle.Finite && k.y.Form == oracle.Finite {
+			le := oracle.Digits(k.x.Coef) + oracle.Digits(k.y.Coef) + k.x.Exp + k.y.Exp
+			if le < oracle.MinExp-2 || le > oracle.MaxExp+2 {
+				return false // the library saturates the product (known finding D15): no shift
+			}
+			return gap(oracle.Val{Form: oracle.Finite, Coef: k.x.Coef, Exp: k.x.Exp + k.y.Exp}, k.u)
+		}
+	}
+	return false
+}
